@@ -421,3 +421,17 @@ Definition observe_segs (cfg0 : config) (orc : oracle) (segs : list (config * li
   (tr, (enc_results ths', (map enc_hopt (hheap st), (map enc_ropt (rheap st), bythread st)))).
 Definition observe_segs_is (cfg0 : config) (orc : oracle) (segs : list (config * list nat)) (ths : list thread)
   (expected : obs) : bool := obs_eqb (observe_segs cfg0 orc segs ths) expected.
+
+(* ------------------------------------------------------------------ *)
+(* the pre-hash fingerprint of reusable.hash_contraction_a (what is pickled and sha1-ed):
+     (tuple(map(sortedtuple, inputs)), sortedtuple(output), sortedtuple(size_dict.items()))
+   index labels as numbers (rank of the label in sorted order), sizes as (label, size) pairs.  The value stored
+   under the key is a POSITIONAL path, so the key has to determine which index set sits at which position. *)
+Definition sort_nat (l : list nat) : list nat := sort_by Nat.leb l.
+Definition sort_sizes (l : list (nat * nat)) : list (nat * nat) :=
+  sort_by (fun a b => Nat.leb (fst a) (fst b)) l.
+Definition key_a (inputs : list (list nat)) (output : list nat) (sizes : list (nat * nat)) :=
+  (map sort_nat inputs, (sort_nat output, sort_sizes sizes)).
+Definition key_a_eqb (i1 : list (list nat)) (o1 : list nat) (s1 : list (nat * nat))
+                     (i2 : list (list nat)) (o2 : list nat) (s2 : list (nat * nat)) : bool :=
+  eqb (key_a i1 o1 s1) (key_a i2 o2 s2).
